@@ -193,3 +193,135 @@ class token_matching_rev:
         'and NOMATCH(funcs, self, result[0] + 1, start - 1) and result[1] is self.tokens[result[0]])']
     raises = []
     serves = ['C03', 'C07']
+
+
+# --------------------------------------------------------------------------------- call-site form of _token_matching
+
+REG.inline_ok |= {'sqlparse.utils.imt', 'sqlparse.sql.Token.match'}
+
+
+class _TokenMatchingCallsite:
+    """modular use of the two verified cases above: assert the precondition, create the result, assume exactly the
+    `ensures` strings of the verified case, and link MATCH to the concrete predicate passed (a pure closure)"""
+
+    @staticmethod
+    def model(ex, self_val, args, kw, st):
+        from pyvc.models import bind_params, _const_default, repo_fn_node
+        from pyvc.heap import MATCHF, snapshot_id, pred_id
+        q = 'sqlparse.sql.TokenList._token_matching'
+        node = repo_fn_node(q)
+        env = bind_params(ex, node, self_val, args, kw, st, lambda d: _const_default(ex, d, None))
+        start, end, reverse, funcs = env['start'], env['end'], env['reverse'], env['funcs']
+        if start is None:
+            return [(st, None)]
+        if end is not None or not isinstance(reverse, bool):
+            raise OutsideSubset('_token_matching call with an explicit end / symbolic direction')
+        c = token_matching_rev if reverse else token_matching_fwd
+        pre = st.fork()
+        pre.env = dict(env)
+        for j, r in enumerate(c.requires):
+            ex.goal('%s/call:TokenList._token_matching.pre#%d' % (ex.fn, j), st, ex.spec(r, pre), {'requires': r})
+        me = env['self']
+        lst = ex.getattr(me, 'tokens', st)
+        n = ex.zlen(st, lst)
+        out = []
+        # outcome 1: nothing found
+        s_none = st.fork()
+        # outcome 2: found at r0
+        r0 = fresh('tm_idx', z3.IntSort())
+        st.assume(z3.And(r0 >= 0, r0 < n))
+        results = [(s_none, (None, None))]
+        for s2, tok in ex.elem_at(st, lst, r0):
+            results.append((s2, (SInt(r0), tok)))
+        for s, res in results:
+            post = s.fork()
+            post.env = dict(env)
+            post.env['result'] = res
+            ex._old_state = pre
+            for e in c.ensures:
+                t = ex.spec(e, post)
+                s.assume(z3.BoolVal(t) if isinstance(t, bool) else t)
+                for f_ in post.pc[len(s.pc):]:
+                    pass
+            # facts produced while evaluating the ensures in `post` were added to post; carry them over
+            for f_ in post.pc:
+                if not any(f_ is g for g in s.pc):
+                    s.pc.append(f_)
+            if res[0] is not None:
+                fs = funcs if isinstance(funcs, (tuple, list)) else (funcs,)
+                if len(fs) == 1 and not isinstance(fs[0], Opaque):
+                    # purity link: the verified contract says MATCH(funcs, list, r0); for this concrete closure that
+                    # is the value the closure returns on the token
+                    rr = ex.call(fs[0], [res[1]], {}, s)
+                    if len(rr) == 1:
+                        b = ex.truth(rr[0][1], rr[0][0])
+                        rr[0][0].assume(z3.BoolVal(b) if isinstance(b, bool) else b)
+                        out.append((rr[0][0], res))
+                        continue
+                    for s3, v3 in rr:
+                        b = ex.truth(v3, s3)
+                        s3.assume(z3.BoolVal(b) if isinstance(b, bool) else b)
+                        if smt.feasible(s3.pc):
+                            out.append((s3, res))
+                    continue
+            out.append((s, res))
+        return [(s, r) for s, r in out if smt.feasible(s.pc)]
+
+
+from pyvc import smt  # noqa: E402
+REG['sqlparse.sql.TokenList._token_matching'] = _TokenMatchingCallsite
+
+
+def skipped_spec(tok, skip_ws='skip_ws', skip_cm='skip_cm'):
+    return ('((%s and %s.is_whitespace) or (%s and (%s.ttype in T.Comment or isinstance(%s, Comment))))'
+            % (skip_ws, tok, skip_cm, tok, tok))
+
+
+@contract('sqlparse.sql.TokenList.token_next', case='forward')
+class token_next_fwd:
+    """token_next(idx): (None, None), or (i, tokens[i]) with i > idx where tokens[i] is not skipped
+    (whitespace if skip_ws, comments if skip_cm).  (That every index strictly between is skipped is the NOMATCH part
+    of the _token_matching contract under the same predicate.)"""
+    exec_class = HeapExec
+    params = {'self': make_group, 'idx': 'int', 'skip_ws': 'bool', 'skip_cm': 'bool',
+              '_reverse': lambda ex, st: False}
+    requires = ['idx >= -1']
+    ensures = ['(result[1] is None) if result[0] is None else '
+               '(result[0] > old(idx) and result[0] < len(self.tokens) and result[1] is self.tokens[result[0]] '
+               'and not ' + skipped_spec('result[1]') + ')']
+    raises = []
+    serves = ['C03', 'C07', 'C11']
+
+
+@contract('sqlparse.sql.TokenList.token_next', case='reverse (token_prev)')
+class token_next_rev:
+    exec_class = HeapExec
+    params = {'self': make_group, 'idx': 'int', 'skip_ws': 'bool', 'skip_cm': 'bool',
+              '_reverse': lambda ex, st: True}
+    requires = ['idx >= 0', 'idx <= len(self.tokens)']
+    ensures = ['(result[1] is None) if result[0] is None else '
+               '(result[0] < old(idx) and result[0] >= 0 and result[1] is self.tokens[result[0]] '
+               'and not ' + skipped_spec('result[1]') + ')']
+    raises = []
+    serves = ['C03', 'C07', 'C11']
+
+
+@contract('sqlparse.sql.TokenList.token_index')
+class token_index_c:
+    """token_index(token): for a direct child (I1/I2: it occurs exactly once) returns its index"""
+    exec_class = HeapExec
+    params = {'self': make_group, 'token': lambda ex, st: _pick_child(ex, st), 'start': lambda ex, st: 0}
+    requires = []
+    ensures = ['0 <= result', 'result < len(self.tokens)', 'self.tokens[result] is token']
+    raises = []
+    serves = ['C03', 'C07']
+
+
+def _pick_child(ex, st):
+    me = st.env['self']
+    lst = ex.getattr(me, 'tokens', st)
+    k = z3.Int('child_pos')
+    st.assume(z3.And(k >= 0, k < ex.zlen(st, lst)))
+    r = ex.elem_at(st, lst, k)
+    assert len(r) == 1
+    return r[0][1]
